@@ -130,7 +130,8 @@ class ForecasterOnePhase:
             If not provided, will find best tau.
         """
         if tau is None:
-            p0 = [cum_production[-1] * 2, time_on_production[-1] * 5]
+            # (in floating point: twice the last entry of an int32 column above 2**30 wraps negative)
+            p0 = [float(cum_production[-1]) * 2, float(time_on_production[-1]) * 5]
             bounds = self.bounds.fit_bounds()
             p0 = self.bounds.regularize_initial_guess(p0)
 
@@ -140,7 +141,7 @@ class ForecasterOnePhase:
 
         else:
             p0 = [
-                cum_production[-1] * 2,
+                float(cum_production[-1]) * 2,
             ]
             bounds = self.bounds.M
             p0 = self.bounds.regularize_initial_guess(p0)
